@@ -391,7 +391,7 @@ def forms_corpus(ctx, only=None):
                 bs = vals
             else:
                 bs = sorted(set(few[:5] + [rng.choice(vals)]))
-            todo.append(("binop", op, OPNAME[op], rot_pairs(vals, bs, 8 if thorough else 3)))
+            todo.append(("binop", op, OPNAME[op], rot_pairs(vals, bs, 6 if thorough else 2)))
         todo.append(("unop", "-", "neg", [[a] for a in vals]))
         todo.append(("unop", "~", "not", [[a] for a in vals]))
         for t2 in INT_TYPES:
@@ -405,8 +405,8 @@ def forms_corpus(ctx, only=None):
         todo.append(("copyblob", None, "x", [[a] for a in few]))
         pairs = [[a, b] for a in few[:4] for b in few[:4]]
         if not thorough:
-            pairs = [pairs[k] for k in (1, 4, 6, 11) if k < len(pairs)]
-        todo.append(("loop", None, "x", [[a] for a in (few if thorough else few[:3])]))
+            pairs = [pairs[k] for k in (1, 4, 11) if k < len(pairs)]
+        todo.append(("loop", None, "x", [[a] for a in (few if thorough else few[:2])]))
         todo.append(("swap", None, "x", pairs))
         todo.append(("allocbranch", None, "x", pairs))
         todo.append(("fnptr", None, "x", pairs))
@@ -725,7 +725,7 @@ def fcast_records(ctx, only=None):
             for d in (-3, -1, 1, 3):
                 qs.add((base * den + d, den))
                 qs.add((-(base * den) + d, den))
-    for _ in range(200 if thorough else 40):
+    for _ in range(100 if thorough else 40):
         den = rng.choice([2, 4, 8, 16, 256])
         qs.add((rng.randrange(-(1 << 19), 1 << 19), den))
     qs = sorted(qs)
@@ -738,7 +738,7 @@ def fcast_records(ctx, only=None):
                 if thorough:
                     myqs = qs if mode == "param" else qs[:: max(1, len(qs) // 12)]
                 elif mode == "param":
-                    myqs = sorted(set(core_qs + rng.sample(qs, 6)))
+                    myqs = sorted(set(rng.sample(core_qs, 7) + rng.sample(qs, 4)))
                 else:
                     myqs = [core_qs[0], core_qs[1], rng.choice(qs)]
                 if mode == "param":
@@ -830,9 +830,9 @@ class Engine:
             if only_id is None or only_id.startswith("form."):
                 cases += forms_corpus(ctx, only_id)
             if only_id is None or only_id.startswith("irgen."):
-                cases += irgen_corpus(ctx, 120 if thorough else 24, only_id.split("(")[0] if only_id else None)
+                cases += irgen_corpus(ctx, 80 if thorough else 16, only_id.split("(")[0] if only_id else None)
             if only_id is None or only_id.startswith("c."):
-                cases += c_corpus(ctx, 80 if thorough else 10, only_id)
+                cases += c_corpus(ctx, 50 if thorough else 8, only_id)
             cases, jobs = prepare(ctx, cases)
             results = run_jobs(ctx, jobs)
             attach(cases, results)
@@ -844,6 +844,14 @@ class Engine:
                 ctx.sample({"id": c["id"], "fn": c["fn"], "args": c["vecs"][:3],
                             "python_observation": [{"outcome": o["outcome"], "ret": show_pv(o["ret"])} for o in c["py"][:3]]})
             ctx.cov["modules"] = len(cases)
+            kinds = {}
+            for c in cases:
+                for f in c["pm"]["funcs"]:
+                    for b in f["blocks"]:
+                        for ins in b["ins"]:
+                            kk = ins["k"] + (":" + ins["op"] if ins["k"] in ("binop", "unop") else "")
+                            kinds[kk] = kinds.get(kk, 0) + 1
+            ctx.cov["ir_instructions_in_corpus"] = dict(sorted(kinds.items()))
             chunk = 400
             for k in range(0, len(cases), chunk):
                 judge(ctx, cases[k:k + chunk], "generated Python vs IR.tla (%d)" % (k // chunk))
